@@ -137,18 +137,18 @@ pub proof fn lemma_C15_inlay_anchor(x: UseV, rt: Seq<char>)
 /// definition (def_item)
 pub proof fn lemma_C05_outgoing_items_are_prepared_items(v: NavV, p: PV, d: DefV, deps: Seq<Seq<char>>, k: int)
     requires 0 <= k < out_calls(v, p, d, deps).len()
-    ensures exists|i: int| 0 <= i < deps.len() && dep_target(v, p, deps[i]) is Some
-        && path_uri(v.uc, (dep_target(v, p, deps[i])->0).file) is Some
-        && #[trigger] out_calls(v, p, d, deps)[k].to == def_item(path_uri(v.uc, (dep_target(v, p, deps[i])->0).file)->0, dep_target(v, p, deps[i])->0)
+    ensures exists|i: int| 0 <= i < deps.len() && dep_target(v, p, d, deps[i]) is Some
+        && path_uri(v.uc, (dep_target(v, p, d, deps[i])->0).file) is Some
+        && #[trigger] out_calls(v, p, d, deps)[k].to == def_item(path_uri(v.uc, (dep_target(v, p, d, deps[i])->0).file)->0, dep_target(v, p, d, deps[i])->0)
     decreases deps.len()
 {
     if deps.len() > 0 {
         let rest = out_calls(v, p, d, deps.drop_last());
         if k < rest.len() {
             lemma_C05_outgoing_items_are_prepared_items(v, p, d, deps.drop_last(), k);
-            let i = choose|i: int| 0 <= i < deps.drop_last().len() && dep_target(v, p, deps.drop_last()[i]) is Some
-                && path_uri(v.uc, (dep_target(v, p, deps.drop_last()[i])->0).file) is Some
-                && #[trigger] rest[k].to == def_item(path_uri(v.uc, (dep_target(v, p, deps.drop_last()[i])->0).file)->0, dep_target(v, p, deps.drop_last()[i])->0);
+            let i = choose|i: int| 0 <= i < deps.drop_last().len() && dep_target(v, p, d, deps.drop_last()[i]) is Some
+                && path_uri(v.uc, (dep_target(v, p, d, deps.drop_last()[i])->0).file) is Some
+                && #[trigger] rest[k].to == def_item(path_uri(v.uc, (dep_target(v, p, d, deps.drop_last()[i])->0).file)->0, dep_target(v, p, d, deps.drop_last()[i])->0);
             assert(deps.drop_last()[i] == deps[i]);
             assert(out_calls(v, p, d, deps)[k] == rest[k]);
         } else {
@@ -158,27 +158,28 @@ pub proof fn lemma_C05_outgoing_items_are_prepared_items(v: NavV, p: PV, d: DefV
     }
 }
 //@tags C05
-/// AGREEMENT of an outgoing call's target with go-to-definition, in the case the property covers without further
-/// hypotheses about imports: the requesting file itself defines the dependency's name exactly once, and the
-/// dependency is not the fixture's own name (unit available, lemma_C05_c)
-pub proof fn lemma_C05_outgoing_agrees_same_file(v: NavV, p: PV, dep: Seq<char>, k: int)
-    requires 0 <= k < bucket(v.defs, dep).len(), bucket(v.defs, dep)[k].file == p, at_most_one_in(bucket(v.defs, dep), p)
-    ensures dep_target(v, p, dep) == Some(bucket(v.defs, dep)[k]),
+/// AGREEMENT of an outgoing call's target with go-to-definition for a dependency that is NOT the fixture's own name,
+/// in the case the property covers without further hypotheses about imports: the requesting file itself defines the
+/// dependency's name exactly once (unit available, lemma_C05_c).  Beyond that case F-05b remains for these
+/// dependencies (resolve_fixture_for_file is not resolution): canary_outgoing_resolves_like_goto.
+pub proof fn lemma_C05_outgoing_agrees_same_file(v: NavV, p: PV, d: DefV, dep: Seq<char>, k: int)
+    requires dep != d.name, 0 <= k < bucket(v.defs, dep).len(), bucket(v.defs, dep)[k].file == p, at_most_one_in(bucket(v.defs, dep), p)
+    ensures dep_target(v, p, d, dep) == Some(bucket(v.defs, dep)[k]),
         op_resolve(bucket(v.defs, dep), p, (v.provf)(dep), fs_true()) == Some(bucket(v.defs, dep)[k])
 {
     lemma_C05_c_ff_same_file(bucket(v.defs, dep), p, canon_pv(p), (v.provf)(dep), k);
 }
-//@tags C05
-/// FINDING (proved): the overriding fixture D = `def foo(foo)` in file p (its only `foo`).  Its dependency `foo` is,
-/// for outgoingCalls, D ITSELF (resolve_fixture_for_file: same file first, no exclusion) — a self-loop in the call
-/// hierarchy — whereas go-to-definition on that parameter never lands on D (it lands on the fixture D overrides).
-pub proof fn lemma_C05_FINDING_outgoing_self_dependency(v: NavV, p: PV, x: UseV, d: DefV, k: int)
-    requires
-        unique_at_line(v.defs), at_line(v.defs, p, x.line, d), d.name == x.name, d.file == p,
-        0 <= k < bucket(v.defs, x.name).len(), bucket(v.defs, x.name)[k] == d, at_most_one_in(bucket(v.defs, x.name), p),
-    ensures dep_target(v, p, x.name) == Some(d), resolve_usage(v.defs, v.provf, p, x) != Some(d),
+//@tags C05 C02
+/// C05 (positive since the repair of F-05d) — the overriding fixture D = `def foo(foo)` in file p: the target of its
+/// SELF-NAMED dependency in outgoingCalls IS the definition go-to-definition selects for that parameter (the usage x
+/// on D's line carrying D's name): both are resolution from p with D excluded.  In particular it is never D itself
+/// (no self-loop: lemma_C02_a) and it is the resolution in the index without D ("the next definition outward",
+/// lemma_C02_b, unit resolver_core).  Hypotheses: W4 (unique_at_line) and D registered at the parameter's (file, line).
+pub proof fn lemma_C05_outgoing_self_dependency_is_goto_target(v: NavV, p: PV, x: UseV, d: DefV)
+    requires unique_at_line(v.defs), at_line(v.defs, p, x.line, d), d.name == x.name,
+    ensures dep_target(v, p, d, x.name) == resolve_usage(v.defs, v.provf, p, x),
+        dep_target(v, p, d, x.name) != Some(d),
 {
-    lemma_C05_c_ff_same_file(bucket(v.defs, x.name), p, canon_pv(p), (v.provf)(x.name), k);
     lemma_pick(v.defs, p, x.line, d);
     lemma_C02_a_never_self(bucket(v.defs, x.name), p, (v.provf)(x.name), d);
 }
@@ -250,13 +251,26 @@ pub proof fn lemma_C15_param_ranges_repeat_double_records(uses: Map<PV, Seq<UseV
 
 // ---- vacuity guards: each of these must FAIL -------------------------------------------------------------------
 /// outgoing calls resolve dependencies as go-to-definition does (FALSE: F-05b, and the self-dependency finding)
-proof fn canary_outgoing_resolves_like_goto(v: NavV, p: PV, dep: Seq<char>)
-    requires pv_has_parent(p) && p.len() > 0
-    ensures dep_target(v, p, dep) == op_resolve(bucket(v.defs, dep), p, (v.provf)(dep), fs_true())
+proof fn canary_outgoing_resolves_like_goto(v: NavV, p: PV, d: DefV, dep: Seq<char>)
+    requires pv_has_parent(p) && p.len() > 0, dep != d.name
+    ensures dep_target(v, p, d, dep) == op_resolve(bucket(v.defs, dep), p, (v.provf)(dep), fs_true())
 {
     lemma_best_props(bucket(v.defs, dep), p_same(p, fs_true()));
     lemma_first_match_in(bucket(v.defs, dep), p_same(p, fs_true()));
 }
+/// the pre-fix behaviour (F-05d): a self-named dependency resolves through resolve_fixture_for_file (to D itself)
+proof fn canary_outgoing_self_dependency_unexcluded(v: NavV, p: PV, d: DefV)
+    ensures dep_target(v, p, d, d.name) == op_resolve_ff(bucket(v.defs, d.name), p, canon_pv(p))
+{}
+/// the exclusion applies to EVERY dependency
+proof fn canary_outgoing_exclusion_for_every_dependency(v: NavV, p: PV, d: DefV, dep: Seq<char>)
+    ensures dep_target(v, p, d, dep) == op_resolve(bucket(v.defs, dep), p, (v.provf)(dep), fs_excl(Some(d)))
+{}
+/// the self-named dependency agrees with go-to-definition without W4
+proof fn canary_outgoing_self_dependency_without_w4(v: NavV, p: PV, x: UseV, d: DefV)
+    requires at_line(v.defs, p, x.line, d), d.name == x.name
+    ensures dep_target(v, p, d, x.name) == resolve_usage(v.defs, v.provf, p, x)
+{}
 /// the from_ranges come from a text search: one range per call (FALSE since F-15c was repaired: one per recorded usage)
 proof fn canary_param_ranges_single_range(uses: Map<PV, Seq<UseV>>, file: PV, line: usize, name: Seq<char>)
     requires param_ranges(uses, file, line, name) is Some
@@ -308,9 +322,7 @@ proof fn canary_hyp_inlay_self_named(a: AvV, provf: spec_fn(Seq<char>) -> spec_f
         0 <= k < bucket(a.defs, x.name).len(), bucket(a.defs, x.name)[k] == d, at_most_one_in(bucket(a.defs, x.name), f),
     ensures false
 {}
-proof fn canary_hyp_outgoing_self_dependency(v: NavV, p: PV, x: UseV, d: DefV, k: int)
-    requires
-        unique_at_line(v.defs), at_line(v.defs, p, x.line, d), d.name == x.name, d.file == p,
-        0 <= k < bucket(v.defs, x.name).len(), bucket(v.defs, x.name)[k] == d, at_most_one_in(bucket(v.defs, x.name), p),
+proof fn canary_hyp_outgoing_self_dependency(v: NavV, p: PV, x: UseV, d: DefV)
+    requires unique_at_line(v.defs), at_line(v.defs, p, x.line, d), d.name == x.name,
     ensures false
 {}
